@@ -100,12 +100,28 @@ def _walk_own(fnode):
         stack.extend(ast.iter_child_nodes(n))
 
 
+def _property_role(node):
+    """'getter' for @property, 'setter' / 'deleter' for @<name>.setter /
+    @<name>.deleter on a function of the same name, else None."""
+    for d in getattr(node, 'decorator_list', []):
+        if isinstance(d, ast.Name) and d.id == 'property':
+            return 'getter'
+        if isinstance(d, ast.Attribute) and isinstance(d.value, ast.Name) \
+                and d.value.id == node.name and \
+                d.attr in ('setter', 'deleter'):
+            return d.attr
+    return None
+
+
 class ClassInfo(Scope):
     def __init__(self, qualname, node, module, parent):
         super().__init__(qualname, node, module, parent)
         self.base_exprs = node.bases
         self.bases: typing.List[typing.Any] = []  # ClassInfo or ext name
         self.methods: typing.Dict[str, FuncInfo] = {}
+        # @<name>.setter / @<name>.deleter functions of properties
+        self.prop_setters: typing.Dict[str, FuncInfo] = {}
+        self.prop_deleters: typing.Dict[str, FuncInfo] = {}
         self.nested: typing.Dict[str, 'ClassInfo'] = {}
 
     @property
@@ -181,6 +197,16 @@ class Program:
                                                      st.level), scope, name))
         elif isinstance(st, (ast.FunctionDef, ast.AsyncFunctionDef)):
             owner = scope if isinstance(scope, ClassInfo) else None
+            role = _property_role(st) if owner is not None else None
+            if role in ('setter', 'deleter') and st.name in owner.methods:
+                # the second half of a property: kept beside the getter,
+                # which stays the class attribute of that name
+                fi = FuncInfo('%s.%s.%s' % (scope.qualname, st.name, role),
+                              st, mi, owner)
+                self.functions[fi.qualname] = fi
+                (owner.prop_setters if role == 'setter' else
+                 owner.prop_deleters)[st.name] = fi
+                return
             fi = FuncInfo(scope.qualname + '.' + st.name, st, mi, owner)
             self.functions[fi.qualname] = fi
             if owner is not None:
@@ -326,8 +352,32 @@ class Program:
     def function(self, short):
         q = PACKAGE + '.' + short
         if q not in self.functions:
+            r = self._through_aliases(short)
+            if isinstance(r, FuncInfo):
+                return r
             raise AnalysisError('anchor vanished: function %s' % short)
         return self.functions[q]
+
+    def _through_aliases(self, short):
+        """module.name[.name...] resolved through the module's bindings: a
+        definition that moved to another module and is imported back under
+        the old name, or a plain `old = new` alias."""
+        parts = short.split('.')
+        cur = self.modules.get(PACKAGE + '.' + parts[0])
+        for nm in parts[1:]:
+            if cur is None:
+                return None
+            cur = self.member(cur, nm)
+            hops = 0
+            while isinstance(cur, Binding) and cur.kind == 'assign' and \
+                    hops < 5:
+                hops += 1
+                node = getattr(cur.node, 'value', None)
+                if not isinstance(node, (ast.Name, ast.Attribute)):
+                    break
+                cur = self.resolve_static(cur.scope, node,
+                                          cur.scope.module)
+        return cur
 
     def cls(self, short):
         q = PACKAGE + '.' + short
@@ -335,10 +385,70 @@ class Program:
             raise AnalysisError('anchor vanished: class %s' % short)
         return self.classes[q]
 
-    def find_method(self, ci: ClassInfo, name: str):
+    def enum_kind(self, ci):
+        """None, 'plain' (enum.Enum / Flag: a member is an object of its
+        own) or 'mixed' (IntEnum, IntFlag, StrEnum, or Enum mixed with a
+        data type: a member is also a value of that type)."""
+        kind = None
+        for c in self.mro(ci):
+            bases = c.bases if isinstance(c, ClassInfo) else [c]
+            for b in bases:
+                if isinstance(b, tuple) and b and b[0] == 'ext':
+                    if b[1] in ('enum.IntEnum', 'enum.IntFlag',
+                                'enum.StrEnum', 'builtins.int',
+                                'builtins.str', 'builtins.bytes'):
+                        kind = 'mixed'
+                    elif b[1] in ('enum.Enum', 'enum.Flag') and \
+                            kind is None:
+                        kind = 'plain'
+        if kind == 'mixed':
+            # a data type alone does not make an enumeration
+            ok = False
+            for c in self.mro(ci):
+                for b in (c.bases if isinstance(c, ClassInfo) else [c]):
+                    if isinstance(b, tuple) and b and b[0] == 'ext' and \
+                            b[1].startswith('enum.'):
+                        ok = True
+            return 'mixed' if ok else None
+        return kind
+
+    def enum_member(self, ci, name):
+        """Is ``name`` a member of the enumeration class ci (a plain
+        assignment in the class body, not private, not a function)?"""
+        if name.startswith('_') or name not in ci.bindings:
+            return False
+        return all(b.kind == 'assign' for b in ci.bindings[name])
+
+    def find_property(self, ci: ClassInfo, name: str):
+        """(getter, setter | None, deleter | None) when the class attribute
+        ``name`` is a property defined in the package, else None."""
         for c in self.mro(ci):
             if isinstance(c, ClassInfo) and name in c.methods:
+                g = c.methods[name]
+                if _property_role(g.node) != 'getter':
+                    return None
+                return g, c.prop_setters.get(name), \
+                    c.prop_deleters.get(name)
+            if isinstance(c, ClassInfo) and name in c.bindings:
+                return None
+        return None
+
+    def find_method(self, ci: ClassInfo, name: str):
+        for c in self.mro(ci):
+            if isinstance(c, ClassInfo) and name in c.methods and \
+                    c.bindings.get(name) and \
+                    c.bindings[name][-1].kind == 'func':
                 return c.methods[name]
+            if isinstance(c, ClassInfo) and name in c.bindings:
+                # `name = some_function` in the class body: a method too
+                b = c.bindings[name][-1]
+                if b.kind == 'assign' and isinstance(
+                        b.value, (ast.Name, ast.Attribute)):
+                    r = self.resolve_static(c, b.value, c.module)
+                    if isinstance(r, FuncInfo):
+                        return r
+                if name in c.methods:
+                    return c.methods[name]
         return None
 
     def files(self):
